@@ -69,6 +69,13 @@ def _pipes(tier):
     return out
 
 
+# parameter graphs in which the inner node of an optimizer rewrite pattern has a second consumer
+_SHARED = [
+    {"kind": "hand", "name": "param-shared-node", "K": 2, "which": "softmax", "input": "embedding"},
+    {"kind": "hand", "name": "param-shared-node", "K": 2, "which": "outer", "input": "embedding"},
+]
+
+
 def cases(tier, seed):
     rnd = random.Random(seed)
     hand = C01._hand(tier)
@@ -81,17 +88,19 @@ def cases(tier, seed):
         txt = str(c)
         if "poly" in txt:
             return ["sum-product", "complex-lse-sum"]
+        if "param-shared-node" in txt:
+            return ["sum-product"]
         return sems
 
     if tier == "quick":
         rnd.shuffle(rg)
         rnd.shuffle(hand)
-        picks = pipes + hand[:10] + rg[:8]
+        picks = pipes + _SHARED + hand[:10] + rg[:8]
         for i, c in enumerate(picks):
             ss = sems_for(c)
             out.append({"circuit": c, "semiring": ss[(i + seed) % len(ss)]})
     else:
-        for c in pipes + hand + rg:
+        for c in pipes + _SHARED + hand + rg:
             for s in sems_for(c):
                 out.append({"circuit": c, "semiring": s})
         for i, c in enumerate(families.random_members(1001, 160)):
